@@ -609,9 +609,9 @@ def suite_malformed(out, tier, seed):
                 except Exception:
                     break
                 out_.extend(range(p, start))
-                if tag & 0x20 or tag == 0x04:
-                    if tag & 0x20:
-                        stack.append((start, min(start + ln, b)))
+                if tag & 0x20 or (tag == 0x04 and ln >= 2 and data[start:start + 1] == b"\x30"):
+                    # constructed values, and octet strings that wrap a sequence (the USM security parameters)
+                    stack.append((start, min(start + ln, b)))
                 p = start + ln
         return sorted(set(out_))
 
@@ -627,9 +627,12 @@ def suite_malformed(out, tier, seed):
                 ms.append(("flip", (p, bit), data[:p] + bytes([data[p] ^ (1 << bit)]) + data[p + 1:]))
         for _ in range(20):
             ms.append(("random", None, bytes(rnd.randrange(256) for _ in range(rnd.randint(0, 60)))))
+        # type confusion: an INTEGER sent where an OCTET STRING belongs and the other way round (a datagram that still decodes)
+        confusion = [("subst", (p, {0x02: 0x04, 0x04: 0x02}[data[p]]), data[:p] + bytes([{0x02: 0x04, 0x04: 0x02}[data[p]]]) + data[p + 1:])
+                     for p in hp if data[p] in (0x02, 0x04)]
         if tier == "quick":
             rnd.shuffle(ms)
-            ms = ms[:40]
+            ms = ms[:40] + confusion
         return ms
 
     def d15_pattern(data, a=0, b=None, depth=0):
